@@ -15,6 +15,7 @@ import Driver.Lookup
 import Driver.Registry
 import Driver.System
 import Driver.Endpoint
+import Driver.Mailbox
 
 open Panrpc
 
@@ -110,6 +111,7 @@ def handle (st : St) (line : String) : St × String :=
     | (none, ans, true) => ({ st with dead := true }, ans)
     | (none, ans, false) => (st, ans)
   | "epq" :: rest => (st, Driver.Ep.epQuery rest)
+  | "mb" :: rest => (st, Driver.Mbx.mailboxQuery rest)
   | "sys" :: rest =>
     let (s', ans) := SysQ.sysHandle st.sys rest
     ({ st with sys := s', dead := st.dead || ans.startsWith "rejected" }, ans)
